@@ -51,6 +51,11 @@ func main() {
 	zerolog.SetGlobalLevel(zerolog.Disabled)
 	out := hx.Open()
 	defer out.Close()
+	defer func() {
+		if realDir != "" {
+			os.RemoveAll(realDir)
+		}
+	}()
 	if lines := hx.ReplayLines(); lines != nil {
 		for _, l := range lines {
 			if len(l) >= 2 {
